@@ -93,7 +93,7 @@ pub fn end_script(sh: Shape) -> impl Strategy<Value = EndScript> {
 
 pub fn stream_spec(sh: Shape) -> impl Strategy<Value = StreamSpec> {
     (0usize..2, any::<u16>(), prop::collection::vec(any::<u8>(), 0..6), 0u8..4, end_script(sh), end_script(sh))
-        .prop_map(|(side, port, pad, delay, e0, e1)| StreamSpec { side, port, pad, delay, park: None, ends: [e0, e1] })
+        .prop_map(|(side, port, pad, delay, e0, e1)| StreamSpec { side, port, pad, delay, park: None, cancel: None, ends: [e0, e1] })
 }
 
 pub fn schedule(max: usize) -> impl Strategy<Value = Vec<u8>> {
@@ -144,7 +144,7 @@ pub fn large_window_case(i: u64) -> Case {
     ends[1 - writer_end] = EndScript { w: vec![WOp::Write(2), WOp::Shutdown], r: vec![ROp::Park(1), ROp::ToEof(4096)] };
     Case {
         opts,
-        streams: vec![StreamSpec { side, port: 1, pad: vec![], delay: 0, park: None, ends }],
+        streams: vec![StreamSpec { side, port: 1, pad: vec![], delay: 0, park: None, cancel: None, ends }],
         events: vec![RawEvent { when: Trigger::Quiescent, what: What::Wake(1) }],
         step_bound: 3_000_000,
         ..Case::default()
@@ -169,7 +169,7 @@ pub fn large_write_lag_case(i: u64) -> Case {
     w.push(WOp::Shutdown);
     Case {
         opts: [OptsSpec { rwnd: 4, thr: 2, ..OptsSpec::default() }, OptsSpec { rwnd: 4, thr: 2, ..OptsSpec::default() }],
-        streams: vec![StreamSpec { side, port: 80, pad: vec![], delay: 0, park: None, ends: [EndScript { w, r: vec![ROp::ToEof(4096)] }, EndScript { w: vec![WOp::Write(1), WOp::Shutdown], r: vec![ROp::Park(1), ROp::ToEof(1 << 20)] }] }],
+        streams: vec![StreamSpec { side, port: 80, pad: vec![], delay: 0, park: None, cancel: None, ends: [EndScript { w, r: vec![ROp::ToEof(4096)] }, EndScript { w: vec![WOp::Write(1), WOp::Shutdown], r: vec![ROp::Park(1), ROp::ToEof(1 << 20)] }] }],
         events: vec![RawEvent { when: Trigger::Quiescent, what: What::Wake(1) }],
         step_bound: 2_000_000,
         ..Case::default()
